@@ -319,5 +319,5 @@ MANIFEST = {
     "text": "exploration: both implication directions judged on thousands (quick) / 250 000 (thorough) group-free pairs x 5 skip lists, and the ACL-level report compared with the specification model on hundreds / 20 000 ACLs with deliberate duplicates, incl. repeated queries with other skip lists on the same object",
     "note": "trusted: lib/refsem.py; the sliver 'top port condition = all of 1..65535, bottom without ports' is excluded and counted; established is excluded here (C03 covers it for soundness)",
 }
-MANIFEST["engine"] += " + atheris (coverage-guided twins of the Hypothesis sub-checks, fuzz/fuzz_hyp.py: 2 jobs x 8 s quick, 8 jobs x 200 s thorough)"
+MANIFEST["engine"] = MANIFEST.get("engine", "hypothesis") + " + atheris (coverage-guided twins of the Hypothesis sub-checks, fuzz/fuzz_hyp.py: 2 jobs x 8 s quick, 8 jobs x 200 s thorough)"
 MANIFEST["technique"] += "; plus coverage-guided fuzzing of the same strategies (atheris/libFuzzer mutates the byte stream Hypothesis decodes into cases, the same oracle runs inside the target, findings are re-judged outside it)"
